@@ -288,7 +288,141 @@ def check_determinism(chk):
                     if m:
                         chk.violation("G-IO.determinism", "ptr-keyed-iteration:%s" % sf, "%s:%s" % (rel(fn["file"]), x.get("l")),
                                       "%s iterates a container keyed by pointers (%s): order depends on allocation addresses" % (sf, t[:80]))
+    # address-dependent values: ordering of pointers, pointers turned into integers or printed, hashing of pointers
+    n_addr = 0
+    for fn in gen.sbeppc_functions(f):
+        sf = gguard.short_fn(fn)
+        for x in walk(fn["body"]):
+            k = x.get("k")
+            why = None
+            if k == "BinaryOperator" and x.get("op") in ("<", ">", "<=", ">=") and ((x.get("lhs") or {}).get("t", "")).endswith("*") \
+                    and not (((x.get("lhs") or {}).get("t", "")).replace("const ", "").startswith("char")):
+                why = "orders two pointers (`%s` on %s)" % (x.get("op"), (x.get("lhs") or {}).get("t", ""))
+            elif k in ("CXXReinterpretCastExpr", "CStyleCastExpr", "CXXFunctionalCastExpr") and x.get("from", "").endswith("*") \
+                    and not x.get("t", "").endswith("*") and "void" not in x.get("t", "") and x.get("t", "") != "bool":
+                why = "turns a pointer into the integer type %s" % x.get("t")
+            else:
+                c = x.get("callee") or {}
+                q = c.get("base", "") or ""
+                if q == "fmt::ptr" or (q.startswith("std::hash<") and "*" in q.split("::operator")[0]):
+                    why = "formats / hashes a pointer value (%s)" % q[:60]
+            if k in ("BinaryOperator", "CXXReinterpretCastExpr", "CStyleCastExpr", "CallExpr", "CXXMemberCallExpr", "CXXOperatorCallExpr"):
+                n_addr += 1
+            if why:
+                chk.violation("G-IO.determinism", "address:%s" % sf, "%s:%s" % (rel(fn["file"]), x.get("l")),
+                              "%s %s: the value depends on where the allocator placed the objects, so two runs on the same schema "
+                              "may differ" % (sf, why))
+    chk.ok("G-IO.determinism", "address-dependent-values", {"nodes_scanned": n_addr}, nontrivial=True)
     chk.ok("G-IO.determinism", "calls-scanned", {"calls": n_calls}, nontrivial=True)
     # positive control: the rule recognises a clock call in a synthetic record
     fired = any("std::chrono::" == a for a in NONDET) and ("std::chrono::system_clock::now".startswith("std::chrono::"))
     chk.control("nondeterminism-pattern", fired)
+
+
+# ------------------------------------------------------------------ G-INIT
+BUILTIN = re.compile(r"^(const )?(unsigned |signed )?(char|short|int|long|long long|bool|float|double|wchar_t|char16_t|char32_t)( int)?$|^(const )?(unsigned|signed)$")
+
+
+def check_initialised(chk):
+    """G-INIT: the parse tree (`sbe::` structs) and the `*_context` structs are plain aggregates whose integer / bool /
+    enum / pointer members have no default member initialisers: an object of such a type that is default-initialised
+    (`sbe::field f;`) carries indeterminate values, and whichever of them the parser does not assign reaches the
+    validators and the generated text - output that differs from run to run.  Every local of such a type must be
+    value- / list-initialised (`T x{}`); scalar locals must have an initialiser too."""
+    f = gen.facts()
+    enums = {e["qn"] for e in f.get("enums", [])} | {"sbepp::field_presence", "sbepp::endian"}
+    recs = {}
+    for r in f["records"]:
+        if "/sbeppc/src/" in r.get("file", ""):
+            recs[r["qn"]] = r
+
+    def scalar(t):
+        t0 = t.replace("const ", "").strip()
+        return bool(BUILTIN.match(t0)) or t0.endswith("*") or t0 in enums
+
+    memo = {}
+
+    def uninit_fields(qn, depth=0):
+        """scalar members (transitively through member structs of the TU) without a default member initialiser"""
+        if qn in memo:
+            return memo[qn]
+        memo[qn] = []
+        r = recs.get(qn)
+        out = []
+        if r is not None and depth < 5 and not r.get("user_ctor"):
+            for fd in r.get("fields") or []:
+                if "init" in fd:
+                    continue
+                t = fd.get("t", "")
+                if scalar(t):
+                    out.append(fd["name"])
+                elif t.replace("const ", "") in recs:
+                    out += ["%s.%s" % (fd["name"], x) for x in uninit_fields(t.replace("const ", ""), depth + 1)]
+        memo[qn] = out
+        return out
+    n = 0
+    for fn in gen.sbeppc_functions(f):
+        sf = gguard.short_fn(fn)
+        for x in walk(fn["body"]):
+            if x.get("k") != "VarDecl" or x.get("static") or x.get("parm"):
+                continue
+            t = (x.get("t") or "")
+            if "&" in t:
+                continue
+            t0 = t.replace("const ", "").strip()
+            init = x.get("init")
+            where = "%s:%s" % (rel(fn["file"]), x.get("l"))
+            if t0 in recs and uninit_fields(t0):
+                n += 1
+                ik = (init or {}).get("k")
+                c = (init or {}).get("callee") or {}
+                default_init = init is None or (ik == "CXXConstructExpr" and c.get("defctor") and c.get("defaulted") and not (init.get("args") or [])
+                                                and not init.get("list") and not init.get("zeroing"))
+                key = "init:%s:%s" % (sf, x.get("name"))
+                never = []
+                if default_init:
+                    # members the function never stores to (flow-insensitive: a member that is assigned somewhere may still be
+                    # assigned on every path - that is not decided here, and not reported)
+                    stored = set()
+                    did = x.get("did")
+                    for y in walk(fn["body"]):
+                        tgt = None
+                        if y.get("k") in ("BinaryOperator", "CompoundAssignOperator") and y.get("op", "").endswith("=") and y.get("op") not in ("==", "!=", "<=", ">="):
+                            tgt = y.get("lhs")
+                        elif y.get("k") == "CXXOperatorCallExpr" and (y.get("callee") or {}).get("name") == "operator=":
+                            tgt = y.get("obj") if y.get("obj") is not None else (y.get("args") or [None])[0]
+                        if tgt is None:
+                            continue
+                        path = []
+                        cur = gen.strip(tgt)
+                        while cur is not None and cur.get("k") == "MemberExpr":
+                            path.insert(0, cur.get("name"))
+                            cur = gen.strip(cur.get("base"))
+                        if cur is not None and cur.get("k") == "DeclRefExpr" and cur.get("did") == did and path:
+                            stored.add(".".join(path))
+                    for m in uninit_fields(t0):
+                        if not any(m == s_ or m.startswith(s_ + ".") for s_ in stored):
+                            never.append(m)
+                if default_init and never:
+                    chk.violation("G-INIT", key, where,
+                                  "`%s %s;` in %s is default-initialised and its members %s (no default member initialiser) are "
+                                  "never assigned in the function: they hold indeterminate values when the object is handed on, "
+                                  "and what the validators and generators make of them differs from run to run"
+                                  % (t0.split("::")[-1], x.get("name"), sf, never[:6]))
+                elif default_init:
+                    chk.notes.append("G-INIT: %s %s in %s is default-initialised; every scalar member is assigned somewhere in the "
+                                     "function (all-paths assignment not decided)" % (t0, x.get("name"), sf))
+                    chk.ok("G-INIT", key, {"where": where, "type": t0, "initialiser": "default; members assigned"})
+                else:
+                    chk.ok("G-INIT", key, {"where": where, "type": t0, "initialiser": ik}, nontrivial=True)
+            elif scalar(t0) and x.get("name"):
+                n += 1
+                key = "init:%s:%s" % (sf, x.get("name"))
+                if init is None and not x.get("cond_var"):
+                    # assigned later, perhaps on every path: not decided here
+                    chk.notes.append("G-INIT: scalar local %s %s in %s has no initialiser (definite assignment not decided)" % (t0, x.get("name"), sf))
+                    chk.ok("G-INIT", key + "#%s" % x.get("l"), {"where": where, "type": t0, "initialiser": None})
+                else:
+                    chk.ok("G-INIT", key + "#%s" % x.get("l"), {"where": where, "type": t0})
+    chk.floor("G-INIT locals", n, 40)
+    return n
